@@ -378,6 +378,16 @@ func ErrArgumentOnFieldMustNotBeNull(argName, fieldName ast.ByteSlice) (err Exte
 	return err
 }
 
+func ErrArgumentRequiredOnDirective(argName, directiveName ast.ByteSlice) (err ExternalError) {
+	err.Message = fmt.Sprintf("argument: %s is required on directive: @%s but missing", argName, directiveName)
+	return err
+}
+
+func ErrArgumentOnDirectiveMustNotBeNull(argName, directiveName ast.ByteSlice) (err ExternalError) {
+	err.Message = fmt.Sprintf("argument: %s on directive: @%s must not be null", argName, directiveName)
+	return err
+}
+
 func ErrFragmentSpreadFormsCycle(spreadName ast.ByteSlice) (err ExternalError) {
 	err.Message = fmt.Sprintf("fragment spread: %s forms fragment cycle", spreadName)
 	return err
